@@ -211,3 +211,46 @@ def _pure(V):
 
 # join uses rotation_matrix_from_vectors through its C11 contract: that contract is part of this claim
 P.include(G.P, ["rotation_matrix_from_vectors[general branch]"], why="used modularly when orienting fragment B")
+
+
+# ------------------------------------------------------------------------------------------ iterated joins (molli combine)
+@P.unit("molli.scripts.combine:_ml_assemble", name="molli combine: substituent k ends up on the core's attachment point k (iterated join, index shift)",
+        functions=["molli.scripts.combine:_ml_assemble", f"{ST}.join"])
+def _assemble(V):
+    """core  X0 - C1 - C2(-X4) - X3  with three attachment points (0, 4, 3 in this order); three different one-atom substituents.
+    join is executed for real (rotation optimisation stubbed: any rotation matrix), so the index shift after each join is the code's."""
+    I, st = V.I, V.st
+    E = V.cls("molli.chem.atom:Element")
+    AT = V.cls("molli.chem.atom:AtomType")
+    I.ext_models["joblib.delayed"] = Builtin("delayed", lambda i, a, k: a[0])
+    I.stubs["molli.math.distance:_optimize_rotation"] = lambda I_, f, a, k: NP.mk([[1.0, 0.0, 0.0], [0.0, 1.0, 0.0], [0.0, 0.0, 1.0]], "float")
+    # which atoms end up bonded does not depend on the geometry: any matrix stands for the two rotation helpers
+    I.stubs["molli.math.rotation:rotation_matrix_from_vectors"] = lambda I_, f, a, k: NP.mk([[1.0, 0.0, 0.0], [0.0, 1.0, 0.0], [0.0, 0.0, 1.0]], "float")
+    order = (0, 3, 4)          # ascending, as molli combine passes them (indices of core.attachment_points)
+
+    def mol(name, els, bonds, aps):
+        m = M.mk_mol(V, "Molecule", len(els), bonds, name=name, full=False, labels="sym")
+        for j, (a, el) in enumerate(zip(m.fields["_atoms"].items, els)):
+            a.fields["element"] = I.getattr_(E, el)
+            a.fields["atype"] = I.getattr_(AT, "AttachmentPoint" if j in aps else "Regular")
+        V.assume(to_z3(m.fields["mult"], "int") >= 1)
+        # the geometry is irrelevant to which atoms get bonded: concrete, generic coordinates keep this unit to one path
+        m.fields["_coords"] = NP.mk([[1.37 * j + 0.11 * len(els), 0.53 * j * j - 0.2 * len(name), 0.29 * j + 0.07 * (j % 2)] for j in range(len(els))], "float")
+        return m
+    # X0-C1-Si2(-X3)-P5-X4 : the three attachment points have three different neighbours (C, Si, P)
+    core = mol("core", ("Unknown", "C", "Si", "Unknown", "Unknown", "P"), ((0, 1), (1, 2), (2, 3), (2, 5), (5, 4)), (0, 3, 4))
+    subs = [mol(f"s{k}", ("Unknown", el), ((0, 1),), (0,)) for k, el in enumerate(("N", "O", "F"))]
+    V.witness(lambda ev: {"op": "assemble", "core_aps": list(order), "signature": "assemble"})
+    V.cover()
+    out = V.call("molli.scripts.combine:_ml_assemble", [core, tuple(order), ListV([tuple(subs)])], {"hadd": False})
+    ok = out.returned and isinstance(out.value, DictV) and len(out.value.vals) == 1
+    V.ensure("assemble/returns-one-product-per-combination", z3.BoolVal(bool(ok)))
+    if not ok:
+        return
+    prod = out.value.vals[0]
+    al = prod.fields["_atoms"].items
+    V.ensure("assemble/product-has-no-attachment-point-left", z3.BoolVal(len(al) == 6 and all(getattr(a.fields["atype"], "name", "") != "AttachmentPoint" for a in al)))
+    name = lambda a: getattr(a.fields["element"], "name", None)
+    got = sorted(tuple(sorted((name(b.fields["a1"]), name(b.fields["a2"])))) for b in prod.fields["_bonds"].items)
+    want = sorted(tuple(sorted(p_)) for p_ in (("C", "Si"), ("Si", "P"), ("C", "N"), ("Si", "O"), ("P", "F")))
+    V.ensure("assemble/substituent-k-is-bonded-where-attachment-point-k-was", z3.BoolVal(got == want), got=str(got), want=str(want))
